@@ -300,6 +300,13 @@ def check_joint_plan(ctx, W, S, members, agents, d, p, ops):
         plan.append(slots)
         cur = nxt
         steps_ref.append(cur)
+    long_plan = ops.draw(800) == 0
+    if long_plan:
+        # a long joint plan (more than a thousand joint actions): the steps above, then steps in which every agent idles
+        for _ in range(1001 + ops.draw(200) - len(plan)):
+            plan.append([None] * len(agents))
+            steps_ref.append(cur)
+        ctx.probes["long_joint_plan"] += 1
     lines = [joint_string(s) for s in plan]
     site = "MultiAgentTrajectoryExporter.parse_plan"
     try:
@@ -343,7 +350,7 @@ def check_joint_plan(ctx, W, S, members, agents, d, p, ops):
     ctx.probes[f"joint_plan_len_{len(plan)}"] += 1
     # ---- the trajectory file: the whole trajectory is written, then (history) a shorter one over the same path; each
     # time the file holds exactly one step per joint action of what was exported last
-    if ops.chance(1, 2):
+    if long_plan or ops.chance(1, 2):
         out = ctx.rundir / "joint.trajectory"
         for label, trs in (("whole", triplets), ("shorter, over the same path", triplets[:1])):
             if label != "whole" and len(triplets) < 2:
